@@ -98,7 +98,9 @@ def jOutcome : Outcome → Json
       ("codes", jList (fun c => Json.str ((aget c realCodes).getD "?")) p.table),
       ("indices", jList (fun (c, n) => Json.arr #[jStr c, jNat n]) p.indices),
       ("secs", jList (fun s => Json.mkObj [("strategy", jStrategy s.strategy), ("body", jWidths s.bodyWidths),
-                                          ("headers", jList (jOpt jWidths) s.headerWidths)]) p.secs)])]
+                                          ("headers", jList (jOpt jWidths) s.headerWidths),
+                                          ("headings", jList jStr s.headings),
+                                          ("sublines", jList jStr s.sublines)]) p.secs)])]
 
 def jLookup : Lookup → Json
   | .idx n => jNat n
@@ -117,14 +119,22 @@ def jClause : Clause → Json
   | .historyDependent => "history-dependent"
   | .encodeTwiceDiffers => "encode-twice-differs"
   | .frameModified => "frame-modified"
+  | .interpreterDependent => "interpreter-dependent"
 
-/-- op `c14_world`: run a history in the model, then the target, and the target in the fresh world -/
+/-- op `c14_world`: run a history in the model (in a process that drew hash seed `seed`), then the target, and the
+target in the fresh world with the same seed and with every seed of `ref_seeds` -/
 def opWorld (j : Json) : R Json := do
   let heap ← listF (asEntry asObj) j "heap"
   let frames ← listF (asEntry asFrame) j "frames"
   let ops ← listF asOp j "ops"
   let target ← asCtor (← fld j "target")
-  let w₀ := fresh heap frames
+  let seed ← match optFld j "seed" with
+    | none => pure 0
+    | some v => asNat v
+  let refSeeds ← match optFld j "ref_seeds" with
+    | none => pure []
+    | some v => asList asNat v
+  let w₀ := fresh heap frames seed
   let r := run realTable w₀ ops
   let t := encodeCtor realTable r.1 target
   let f := encodeCtor realTable w₀ target
@@ -142,7 +152,9 @@ def opWorld (j : Json) : R Json := do
     ("target_doc", doc),
     ("target", jOutcome t.2),
     ("fresh", jOutcome f.2),
-    ("violations", jList jClause (violations (modelObs realTable w₀ ops target)))]
+    ("fresh_others", jList jOutcome (modelFreshOutcomes realTable w₀ refSeeds target)),
+    ("violations", jList jClause (violations (modelObs realTable w₀ ops target)
+      ++ seedViolations f.2 (modelFreshOutcomes realTable w₀ refSeeds target)))]
 
 /-- op `c14_color_index`: `get_rtf_color_index` under a context -/
 def opColorIndex (j : Json) : R Json := do
@@ -181,7 +193,11 @@ def opOracle (j : Json) : R Json := do
     fresh := ← asObsOut (← fld j "fresh")
     twice := ← listF asObsPair j "twice"
     frames := ← listF asStrPair j "frames" }
-  return Json.mkObj [("violations", jList jClause (violations o))]
+  -- the same constructor call + encode in fresh interpreters started with other hash seeds
+  let others ← match optFld j "others" with
+    | none => pure []
+    | some v => asList asObsOut v
+  return Json.mkObj [("violations", jList jClause (violations o ++ seedViolations o.fresh others))]
 
 end WorldImpl
 
